@@ -162,8 +162,20 @@ class ScaleOracle:
             # documented wording ("standard deviation 1") read literally: divide by the sd about the mean, no shift
             m_, s2_ = N.moments(x, True, True, self.ddof)
             self.alts.append((None, s2_))
-        self.tol = TOL * max(1.0, self.kappa)
+        # tolerances (see notes/c13.md): the only rounding error that grows with the data is the error of the mean,
+        # <= N u max|x|, which shifts every centred value; divided by the scale divisor it is N u kappa.  The standard
+        # deviation itself is insensitive to that shift (second order), so its tolerance stays at 1e-9.
+        n = len(self.x)
+        mx = max(abs(v) for v in self.x)
+        self.divisor = N.sqrt_fraction(self.s2) if self.s2 is not None else 1.0
+        self.unit = 1.0 if self.scale else mx / self.kappa          # natural size of the output (sd of x if not scaled)
+        self.shift_err = 16 * n * N.U * mx / self.divisor
+        self.tol = max(TOL * self.unit, self.shift_err)
+        self.tol_sd = max(TOL, 4 * (n * N.U * self.kappa) ** 2)
         self.chosen = None
+
+    def allowed(self, w):
+        return max(TOL * max(self.unit, abs(w)), self.shift_err)
 
     def expected(self, v, which=None):
         mu, s2 = self.alts[self.chosen or 0 if which is None else which]
@@ -172,7 +184,7 @@ class ScaleOracle:
     def match(self, got, values, which):
         for g, v in zip(got, values):
             w = self.expected(v, which)
-            if not (abs(g - w) <= self.tol * max(1.0, abs(w))):
+            if not (abs(g - w) <= self.allowed(w)):
                 return False
         return True
 
@@ -196,18 +208,33 @@ class ScaleOracle:
         # the property in its own words: mean 0 / standard deviation 1 for the chosen ddof
         if self.center:
             m = float(N.mean_exact(g))
-            scale_of_output = 1.0 if self.scale else max(abs(v) for v in self.x)
-            rep(abs(m) <= self.tol * scale_of_output, "mean-not-zero", tag + ": mean of the result is %r" % m, got=g)
+            rep(abs(m) <= self.tol, "mean-not-zero", tag + ": mean of the result is %r (tolerance %.3g)" % (m, self.tol), got=g)
         if self.scale:
             about_mean = self.center or self.chosen == 1
             sd = N.sd_exact(g, self.ddof, about_mean=about_mean)
-            rep(abs(sd - 1.0) <= self.tol, "sd-not-one",
-                tag + ": %s of the result (ddof=%d) is %r" % ("sd" if about_mean else "rms", self.ddof, sd), got=g)
+            rep(abs(sd - 1.0) <= self.tol_sd, "sd-not-one",
+                tag + ": %s of the result (ddof=%d) is %r (tolerance %.3g)" % ("sd" if about_mean else "rms", self.ddof, sd, self.tol_sd), got=g)
         return True
 
 
+def choose_vector(c, ctx, alphabet):
+    """either every vector over the magnitude alphabet, or every vector over a small integer grid D placed at
+    offset o with step h (x = o + h*d): large common offsets with a small spread, and uniformly rescaled data"""
+    if "grids" in ctx:
+        o, h = c.pick(ctx["grids"])
+        d = c.seq(ctx["D"], ctx["L"], 2)
+        x = [o + h * v for v in d]
+        pts = [o + h * t for t in (-1.0, 0.0, 1.0, 2.0, 3.0, 10.0)]
+        return x, (o, h, d), pts
+    return c.seq(alphabet, ctx["L"], 2), None, None
+
+
+def grid_followups(pts, extra=()):
+    return [[v] for v in pts] + [[pts[i], pts[(i + 2) % len(pts)]] for i in range(len(pts))] + [list(pts) + list(extra)]
+
+
 def drv_scale(c, ctx, col):
-    x = c.seq(ALPHA, ctx["L"], 2)
+    x, grid, pts = choose_vector(c, ctx, ALPHA)
     if len(set(x)) < 2:
         raise Skip()
     cfg = c.pick(SCALE_CFGS)
@@ -240,7 +267,11 @@ def drv_scale(c, ctx, col):
             "second application to the training data with the recorded state differs from the first", first=got.tolist(), second=again.tolist())
     except Exception as e:  # noqa
         rep(False, "raises", "second application raised %s: %s" % (type(e).__name__, str(e)[:120]))
-    for new in (ctx["followups"] if len(x) <= ctx.get("full_followups_upto", 99) else ctx["followups_short"]):
+    if grid is not None:
+        followups = grid_followups(pts, extra=[0.0])
+    else:
+        followups = ctx["followups"] if len(x) <= ctx.get("full_followups_upto", 99) else ctx["followups_short"]
+    for new in followups:
         try:
             g2 = to_vec(fn(as_container(new, kind), **kw, _state=st))
         except Exception as e:  # noqa
@@ -259,9 +290,10 @@ def drv_scale(c, ctx, col):
 
 def drv_scale_formula(c, ctx, col):
     from formulaic import model_matrix
-    x = c.seq(ALPHA, ctx["L"], 2)
+    x, grid, pts = choose_vector(c, ctx, ALPHA)
     if len(set(x)) < 2:
         raise Skip()
+    followups = ctx["followups"] if grid is None else [list(pts) + [0.0], [pts[0]], [pts[5], pts[1]]]
     output = c.pick(ctx["outputs"])
     terms = [cfg_expr(cfg) for cfg in SCALE_CFGS]
     formula = " + ".join(terms) + " - 1"
@@ -290,7 +322,7 @@ def drv_scale_formula(c, ctx, col):
         sub = Reporter(col, where + " term=" + terms[j], dict(rep.detail, term=terms[j]))
         ok = orc.check_training(sub, a[:, j], "fit")
         oracles.append((orc, sub, ok))
-    for new in ctx["followups"]:
+    for new in followups:
         df2 = pandas.DataFrame({"x": numpy.array(new, dtype=float)})
         try:
             b = dense(mm.model_spec.get_model_matrix(df2))
@@ -378,19 +410,20 @@ def check_poly_followup(rep, got, new, pr, degree, tag):
 
 
 def choose_poly_case(c, ctx):
-    x = c.seq(ALPHA, ctx["L"], 2)
+    x, grid, pts = choose_vector(c, ctx, ALPHA)
     distinct = len(set(x))
     if distinct < 2:
         raise Skip()
-    return x, distinct
+    ctx_case = (grid, pts)
+    return x, distinct, ctx_case
 
 
 def drv_poly(c, ctx, col):
-    x, distinct = choose_poly_case(c, ctx)
-    degree = 1 + c.upto(2)
+    x, distinct, (grid, pts) = choose_poly_case(c, ctx)
+    degree = 1 + c.upto(ctx.get("maxdeg", 3) - 1)
     if distinct < degree + 1:
         raise Skip()      # needs degree+1 distinct points
-    pos = c.upto(len(x) + 1)
+    pos = c.upto(len(x) + 1) if ctx.get("nulls", True) else 0
     kind = c.pick(ctx["containers"] if len(x) <= ctx.get("containers_upto", 99) else ctx["containers"][:1])
     xn = insert_null(x, pos)
     poly = transforms()["poly"]
@@ -418,8 +451,20 @@ def drv_poly(c, ctx, col):
             "second application to the training data with the recorded state differs from the first", first=got.tolist(), second=again.tolist())
     except Exception as e:  # noqa
         rep(False, "raises", "second application raised %s: %s" % (type(e).__name__, str(e)[:120]))
+    if res and grid is not None and pos == 0:
+        # change of origin / units: the orthonormal basis of o + h*d is the basis of d (h > 0)
+        try:
+            ref = to_vec(poly(as_container(grid[2], kind), degree, _state={}))
+            prd = N.PolyRef(grid[2], degree)
+            for k in range(degree):
+                err = float(numpy.max(numpy.abs(got[:, k] - ref[:, k])))
+                rep(err <= pr.tol(k + 1) + prd.tol(k + 1), "poly-not-invariant",
+                    "column %d of poly(%r + %r * d) differs from poly(d), d = %r, by %.3g" % (k + 1, grid[0], grid[1], grid[2], err),
+                    got=got.tolist(), poly_of_d=ref.tolist())
+        except Exception as e:  # noqa
+            rep(False, "raises", "poly(d) raised %s" % type(e).__name__)
     if res:
-        for new in ctx["followups"]:
+        for new in (ctx["followups"] if grid is None else [[v] for v in pts] + [list(pts) + [NAN], [NAN, pts[2]]]):
             try:
                 g2 = to_vec(poly(as_container(new, kind), degree, _state=st))
             except Exception as e:  # noqa
@@ -439,9 +484,9 @@ def drv_poly(c, ctx, col):
 
 def drv_poly_formula(c, ctx, col):
     from formulaic import model_matrix
-    x, distinct = choose_poly_case(c, ctx)
+    x, distinct, (grid, pts) = choose_poly_case(c, ctx)
     dmax = min(3, distinct - 1)
-    pos = c.upto(len(x) + 1)
+    pos = c.upto(len(x) + 1) if ctx.get("nulls", True) else c.upto(1)
     output = c.pick(ctx["outputs"])
     na_action = c.pick(["drop", "ignore"]) if pos else "drop"
     xn = insert_null(x, pos)
@@ -582,6 +627,14 @@ def drv_elementwise_formula(c, ctx, col):
 
 # ---------------------------------------------------------------------------
 
+# (offset, step) of the grids x = o + h*d: uniformly rescaled data (absolute thresholds) and a large common offset with
+# a small spread (cancellation in one-pass formulas); kappa = |o|/h ranges up to 1e9
+SCALE_GRIDS = [(0.0, 1e-8), (0.0, 1e-4), (0.0, 1e4), (0.0, 1e8), (1e3, 1e-3), (1e6, 1.0), (-1e6, 1.0), (1e6, 1e-3), (1e8, 1.0), (1.7e9, 1.0)]
+SCALE_GRIDS_F = [(0.0, 1e-8), (1e6, 1.0), (1.7e9, 1.0)]
+POLY_GRIDS = [(0.0, 1e-8), (0.0, 1e-6), (0.0, 1e-4), (0.0, 1e-3), (0.0, 1e-2), (0.0, 1e2), (0.0, 1e4), (0.0, 1e8), (1e3, 1.0), (1e6, 1.0), (-1e6, 1e-2)]
+POLY_GRIDS_F = [(0.0, 1e-4), (0.0, 1e-3), (1e6, 1.0)]
+
+
 def followup_vectors(alpha, pairs):
     out = [[a] for a in alpha]
     if pairs == "all":
@@ -625,6 +678,24 @@ def subchecks(tier, seed):
         Sub("poly-formula", drv_poly_formula, {"L": Lf, "outputs": outs}, shard_depth=3,
             bounds={"alphabet": alpha, "length": "2..%d" % Lf, "degree": "all feasible degrees 1..3 in one formula", "null": "none or every position",
                     "na_action": ["drop", "ignore"], "outputs": outs, "followup_frame": alpha + ["nan"]}),
+        # --- data with a large common offset and a small spread, and uniformly rescaled data (x = o + h*d)
+        Sub("scale-grids", drv_scale, {"L": 3 if quick else 4, "containers": ["ndarray"] if quick else ["ndarray", "series"],
+                                       "grids": SCALE_GRIDS, "D": [0.0, 1.0, 3.0]}, shard_depth=3,
+            bounds={"x": "o + h*d, d every vector of length 2..%d over {0, 1, 3}" % (3 if quick else 4), "(o, h)": [list(g) for g in SCALE_GRIDS],
+                    "configurations": cfgs, "followup_vectors": "o + h*{-1,0,1,2,3,10}: singletons, 6 pairs, all of them + 0.0"}),
+        Sub("scale-grids-formula", drv_scale_formula, {"L": 3, "outputs": outs, "grids": SCALE_GRIDS_F if quick else SCALE_GRIDS, "D": [0.0, 1.0, 3.0]},
+            shard_depth=3,
+            bounds={"x": "o + h*d, d every vector of length 2..3 over {0, 1, 3}", "(o, h)": [list(g) for g in (SCALE_GRIDS_F if quick else SCALE_GRIDS)],
+                    "configurations": "all %d in one formula" % len(SCALE_CFGS), "outputs": outs}),
+        Sub("poly-grids", drv_poly, {"L": 4 if quick else 5, "maxdeg": 3 if quick else 4, "containers": ["ndarray"], "nulls": False,
+                                     "grids": POLY_GRIDS, "D": [0.0, 1.0, 2.0, 5.0] if quick else [0.0, 1.0, 2.0, 3.0, 5.0]}, shard_depth=3,
+            bounds={"x": "o + h*d, d every vector of length 2..%d over %s" % ((4, "{0,1,2,5}") if quick else (5, "{0,1,2,3,5}")),
+                    "(o, h)": [list(g) for g in POLY_GRIDS], "degree": "1..%d" % (3 if quick else 4),
+                    "extra_oracle": "poly(o + h*d) == poly(d) (invariance under change of origin and units)"}),
+        Sub("poly-grids-formula", drv_poly_formula, {"L": 3 if quick else 4, "outputs": outs, "nulls": False, "grids": POLY_GRIDS_F if quick else POLY_GRIDS,
+                                                     "D": [0.0, 1.0, 2.0, 5.0]}, shard_depth=3,
+            bounds={"x": "o + h*d, d every vector of length 2..%d over {0,1,2,5}" % (3 if quick else 4),
+                    "(o, h)": [list(g) for g in (POLY_GRIDS_F if quick else POLY_GRIDS)], "null": "none or first position", "outputs": outs}),
         Sub("elementwise-direct", drv_elementwise, {"L": 2 if quick else 3}, shard_depth=2,
             bounds={"alphabet": [fmt(a) for a in EALPHA], "length": "1..%d" % (2 if quick else 3), "functions": sorted(N.ELEMENTWISE),
                     "containers": ["ndarray", "series", "scalar"]}),
